@@ -737,6 +737,8 @@ def r24_call_shim(src, item, ed, opts):
             c = [n for n in nodes_of(item, "binary") if n["op"] == sp["op"] and (sp.get("right") is None or src.text(*n["right"]).replace(" ", "") == sp["right"].replace(" ", "")) and (sp.get("left") is None or src.text(*n["left"]).replace(" ", "") == sp["left"].replace(" ", ""))]
             if sp.get("left_matches") is not None:
                 c = [n for n in c if re.fullmatch(sp["left_matches"], re.sub(r"\s+", "", src.text(*n["left"])), re.S)]
+            if sp.get("right_matches") is not None:
+                c = [n for n in c if re.fullmatch(sp["right_matches"], re.sub(r"\s+", "", src.text(*n["right"])), re.S)]
         elif kind == "unsafe":
             c = nodes_of(item, "unsafe")
         elif kind == "ref_index":
